@@ -269,6 +269,11 @@ pub struct Interp<'a> {
     pub stream_last_epoch: HashMap<(u16, String), u64>,
     pub epoch: u64,
     pub pending_interesting: bool,
+    /// run the oracles of every property and report all failures under this property id
+    /// (used by the crash checks, where any divergence from the model is the finding)
+    pub report_as: Option<&'static str>,
+    /// prefix inserted into signatures in `report_as` mode (classification of the crash cut)
+    pub sig_prefix: String,
 }
 
 pub fn render_expected(e: ExpectedVersion) -> String {
@@ -278,7 +283,7 @@ pub fn render_expected(e: ExpectedVersion) -> String {
 impl<'a> Interp<'a> {
     pub fn new(cfg: DbCfg, dir: &Path, focus: &'static str, out: &'a mut CaseOut, env: &'a Env) -> Interp<'a> {
         let buckets = cfg.buckets;
-        Interp { cfg, dir: dir.to_path_buf(), db: None, model: Model::new(buckets), focus, out, env, stopped: false, stats: Stats::default(), rendered: Vec::new(), next_id: 1, live_end: HashMap::new(), stream_rejected: HashMap::new(), stream_accepted: HashMap::new(), stream_last_epoch: HashMap::new(), epoch: 0, pending_interesting: false }
+        Interp { cfg, dir: dir.to_path_buf(), db: None, model: Model::new(buckets), focus, out, env, stopped: false, stats: Stats::default(), rendered: Vec::new(), next_id: 1, live_end: HashMap::new(), stream_rejected: HashMap::new(), stream_accepted: HashMap::new(), stream_last_epoch: HashMap::new(), epoch: 0, pending_interesting: false, report_as: None, sig_prefix: String::new() }
     }
 
     pub fn open(&mut self) -> bool {
@@ -296,7 +301,10 @@ impl<'a> Interp<'a> {
 
     pub fn fail(&mut self, prop: &str, sig: &str, msg: String) {
         self.stopped = true;
-        if prop == self.focus {
+        if let Some(as_prop) = self.report_as {
+            let pre = if self.sig_prefix.is_empty() { String::new() } else { format!("{}/", self.sig_prefix) };
+            self.out.fail(format!("{as_prop}/{pre}{prop}-{sig}"), msg);
+        } else if prop == self.focus {
             self.out.fail(format!("{prop}/{sig}"), msg);
         } else {
             self.out.foreign.push(format!("{prop}/{sig}"));
@@ -304,7 +312,7 @@ impl<'a> Interp<'a> {
     }
 
     fn on(&self, prop: &str) -> bool {
-        self.focus == prop
+        self.report_as.is_some() || self.focus == prop
     }
 
     pub fn db(&self) -> &Database {
@@ -458,7 +466,7 @@ impl<'a> Interp<'a> {
         }
     }
 
-    fn note_tx_classes(&mut self, tx: &TxInput) {
+    pub fn note_tx_classes(&mut self, tx: &TxInput) {
         let mut seen = std::collections::HashSet::new();
         for e in &tx.events {
             if !seen.insert(e.stream_id.to_string()) {
@@ -471,7 +479,7 @@ impl<'a> Interp<'a> {
     }
 
     /// After an acknowledged append: bookkeeping of live segment end, rollover detection.
-    fn track_layout(&mut self, tx: &TxInput, r: &AppendResult) {
+    pub fn track_layout(&mut self, tx: &TxInput, r: &AppendResult) {
         let bucket = self.cfg.bucket_of(tx.partition_id);
         let first = r.offsets[0];
         let prev_end = self.live_end.get(&bucket).copied().unwrap_or(SEGMENT_HEADER_SIZE as u64);
@@ -758,7 +766,7 @@ impl<'a> Interp<'a> {
     // ---------------------------------------------------------------- oracles per op
 
     /// C01: immediately after the acknowledgement.
-    async fn c01_after_ack(&mut self, tx: &TxInput, r: &AppendResult, tx_idx: usize) {
+    pub async fn c01_after_ack(&mut self, tx: &TxInput, r: &AppendResult, tx_idx: usize) {
         let bucket = self.cfg.bucket_of(tx.partition_id);
         // (i) fsync ledger: snapshot what is durable *first*, then find the record's file
         let snapshot: Vec<(PathBuf, Option<u64>)> = self
@@ -931,7 +939,7 @@ impl<'a> Interp<'a> {
         }
     }
 
-    async fn do_append(&mut self, g: &TxGen) {
+    pub async fn do_append(&mut self, g: &TxGen) {
         let tx = self.concretize(g);
         self.note_tx_classes(&tx);
         self.rendered.push(json!({"append": Self::render_tx(&tx)}));
@@ -953,7 +961,7 @@ impl<'a> Interp<'a> {
         }
     }
 
-    async fn do_batch(&mut self, gs: &[TxGen]) {
+    pub async fn do_batch(&mut self, gs: &[TxGen]) {
         // Transactions are submitted in list order from one task: the writer thread of a bucket
         // receives them in that order, so later ones are validated against earlier ones while
         // those are still unsynced. Across buckets the order is irrelevant to the model.
@@ -1077,7 +1085,7 @@ impl<'a> Interp<'a> {
         }
     }
 
-    async fn do_read_event(&mut self, pick: u16, unknown: bool) {
+    pub async fn do_read_event(&mut self, pick: u16, unknown: bool) {
         if !(self.on("C01") || self.on("C04") || self.on("C03")) {
             return;
         }
